@@ -2,6 +2,7 @@
 Proof: Props/C01.v over Gen/Plan.v (fil_plan regenerated from readers.py) composed with the Stream model (C02).
 Correspondence: Model/Plan.v run_plan under vm_compute vs FilReader.read_plan (trace of block sizes, indices, values,
 error kind and position).  Oracle: stitched blocks == x[start:start+nsamps] written to the files."""
+import math
 import os
 import re
 import shutil
@@ -12,13 +13,46 @@ import filutil
 import vlib
 
 NCH = {1: 8, 2: 4, 4: 2, 8: 2, 16: 1, 32: 1}
+_DEFAULT = object()   # "leave this read_plan argument out" (its default is used)
 
 
-def iterate(fil, gulp, start, nsamps, skipback):
-    """trace of read_plan: ('ok'|'err-before'|'err-after', [(nsamps_r, ii, data copy)], exc name)"""
+def draw(nprng, nbits, shape):
+    """sample values over the whole range of the depth, in the dtype the file is written with: 1/2/4/8-bit fields, full 16-bit words,
+    float32 with fractions, both signs, large magnitudes and a few specials (the reader must return them bit for bit)"""
+    if nbits <= 8:
+        return nprng.integers(0, 1 << nbits, shape)
+    if nbits == 16:
+        x = nprng.integers(0, 1 << 16, shape).astype(np.uint16)
+        x.ravel()[::5] = nprng.choice(np.array([0, 1, 255, 256, 257, 0x00FF, 0xFF00, 0x7FFF, 0x8000, 0xFFFF], dtype=np.uint16), size=x.ravel()[::5].size)
+        return x
+    x = (nprng.standard_normal(shape) * 10.0 ** nprng.integers(-3, 7, shape)).astype(np.float32)
+    sp = np.array([0.0, -0.0, 1.5, -2.25, 255.0, 256.0, 1e30, -1e30, np.inf, -np.inf, np.nan, 1e-40], dtype=np.float32)
+    x.ravel()[::7] = nprng.choice(sp, size=x.ravel()[::7].size)
+    return x
+
+
+def same(got, want, nbits):
+    """got holds exactly the values of want.  When got has the dtype of the depth the comparison is of the bytes (so NaN, -0.0 and the
+    high byte of a 16-bit word count); otherwise it is by value"""
+    got = np.ascontiguousarray(got); want = np.ascontiguousarray(want)
+    if got.shape != want.shape:
+        return False
+    dt = np.dtype(filutil.dtype_for(nbits))
+    if got.dtype == dt:
+        return got.tobytes() == want.astype(dt).tobytes()
+    return bool(np.array_equal(got.astype(np.float64), want.astype(np.float64), equal_nan=True))
+
+
+def iterate(fil, gulp, start, nsamps, skipback, label=None):
+    """trace of read_plan: ('ok'|'err-before'|'err-after', [(nsamps_r, ii, data copy)], exc name).
+    An argument given as _DEFAULT is left out of the call (nsamps: read to the end of the set).  label: the progress-bar description;
+    left out (None) read_plan derives it from inspect.stack(), which costs far more than the read itself"""
     blocks = []
+    kw = {k: v for k, v in (("gulp", gulp), ("start", start), ("nsamps", nsamps), ("skipback", skipback)) if v is not _DEFAULT}
+    if label is not None:
+        kw["description"] = label
     try:
-        for n_r, ii, data in fil.read_plan(gulp=gulp, start=start, nsamps=nsamps, skipback=skipback, quiet=True):
+        for n_r, ii, data in fil.read_plan(quiet=True, **kw):
             blocks.append((int(n_r), int(ii), np.array(data).copy()))
     except ValueError:
         return ("err-before" if not blocks else "err-after", blocks, "ValueError")
@@ -49,28 +83,46 @@ def check_case(R, x, nch, N, nbits, splits, gulp, start, nsamps, skipback, trace
     # accepted and completed: stitched blocks must be exactly the requested samples
     want = x[start:start + nsamps]
     parts = []
+    raw = []
     for k, (n_r, ii, data) in enumerate(blocks):
         if ii != k:
             R.fail("plan-index", "block indices are not 0,1,2,...", dict(case, indices=[b[1] for b in blocks])); return
         if n_r * nch != data.size or n_r > gulp or n_r < 0:
             R.fail("plan-block-size", "reported sample count != len(data)/nchans or block larger than the gulp", dict(case, n_r=n_r, size=int(data.size))); return
         d2 = data.reshape(n_r, nch)
+        raw.append(d2)
         parts.append(d2 if k == 0 else d2[sb:])
     got = np.concatenate(parts) if parts else np.zeros((0, nch))
-    if got.shape != want.shape or not np.array_equal(got.astype(np.int64), want.astype(np.int64)):
+    if got.shape != want.shape or not same(got, want, nbits):
         key = "plan-large-skipback" if 2 * sb > geff else "plan-stitch"
         R.fail(key, "stitched blocks differ from samples [start, start+nsamps)", dict(case, got_len=int(got.shape[0]), sizes=[b[0] for b in blocks]))
+        return
+    # "its leading skipback samples (which repeat the tail of the previous block)": the part of each block that the stitching drops
+    for k in range(1, len(raw)):
+        m = min(sb, raw[k].shape[0])
+        if sb and raw[k - 1].shape[0] >= sb and not same(raw[k][:m], raw[k - 1][raw[k - 1].shape[0] - sb:][:m], nbits):
+            R.fail("plan-overlap", "the leading skipback samples of a block do not repeat the tail of the previous block", dict(case, block=k, sizes=[b[0] for b in blocks]))
+            return
 
 
 def run(R: vlib.Run):
     from sigpyproc.readers import FilReader
-    R.rule = ("synthetic file sets (1..3 contiguous files, depths 1,2,4,8,16,32, nchans*nbits multiple of 8); bounded-exhaustive over "
-              "(gulp, start, nsamps, skipback) for N <= Nmax plus random larger cases; distinct = distinct (depth, split, gulp, start, nsamps, "
-              "skipback); non-trivial = at least two blocks or a rejected plan")
+    R.rule = ("synthetic file sets (1..3 contiguous files, depths 1,2,4,8,16,32, nchans*nbits multiple of 8, sample values over the whole range of "
+              "the depth); bounded-exhaustive over (gulp, start, nsamps, skipback incl. negative and above the effective / nominal gulp) for "
+              "N <= Nmax, nsamps left out (to the end of the set) and all defaults, every layout of N samples over 2 and 3 files incl. members "
+              "without samples, plus random larger cases (odd channel counts, up to 64 channels); distinct = distinct (depth, split, nchans, gulp, "
+              "start, nsamps, skipback, how nsamps was passed); non-trivial = at least two blocks or a rejected plan")
     R.trusted += ["Coq 8.16.1 kernel + vm_compute", "tools/py2coq straight-line translator (read_plan arithmetic regenerated from readers.py)",
                   "hand model of the read_plan loop body (Model/Plan.v) and of FileReader (Model/Stream.v), tied by the correspondence run",
                   "composed theorems: byte-wide samples (plan_sound) and packed depths 1/2/4 (plan_sound_packed = plan o C03 unpack); 16/32-bit: C01_plan_sound_items (plan_sound at nchans*itemsize bytes per sample), byte-level correspondence plus value oracle"]
-    R.assume += ["files contain a whole number of samples", "the OS returns all available bytes on a regular-file read"]
+    R.assume += ["files contain a whole number of samples", "the OS returns all available bytes on a regular-file read",
+                 "every member of a multi-file set holds a whole number of samples: read_plan checks the combined data length, and only for a plan "
+                 "that ends at the last sample, so trailing bytes in a member other than the last shift every later sample of an accepted plan "
+                 "(no file with trailing bytes is generated)",
+                 "0 <= start and start + nsamps <= header.nsamples: a plan that runs past the end of the data is refused only when the short "
+                 "block is reached, i.e. with ValueError after earlier blocks have been yielded (no such plan is generated; start < 0, nsamps <= 0 "
+                 "and gulp <= 0 are refused before the first yield)",
+                 "gulp, start, nsamps and skipback are Python ints (numpy unsigned scalars wrap in -skipback*nchans and an honourable plan is refused)"]
     if "VERIF_CASE_TIMEOUT" not in os.environ:
         R.case_budget = 120.0 if R.tier == "quick" else 600.0   # every implementation call here is a tiny read, ticked individually
     R.prove("Props/C01.v")
@@ -89,52 +141,115 @@ def run(R: vlib.Run):
                 if R.tier == "quick" and nbits in (2, 16) and nf == 2:
                     continue
                 configs.append((nbits, nf))
+        def explore(fil, x, nch, N, nbits, splits, gulp, start, nsamps, skipback, regime=None, tag=(), nsamps_arg=None, tie=True, label=None):
+            """one plan against the implementation: trace, oracle, and (tie) a row for the correspondence with the Coq model.
+            nsamps_arg=_DEFAULT leaves nsamps out of the call; nsamps is then the range the property expects (to the end of the set)"""
+            geff = min(gulp, nsamps)
+            case = {'nbits': nbits, 'nchans': nch, 'N': N, 'splits': splits, 'gulp': gulp, 'start': start,
+                    'nsamps': None if nsamps_arg is _DEFAULT else nsamps, 'skipback': skipback}
+            R.tick(case)
+            tr = iterate(fil, gulp, start, nsamps if nsamps_arg is None else nsamps_arg, skipback, label)
+            R.case((nbits, tuple(splits), N, nch, gulp, start, nsamps, skipback) + tuple(tag), nontrivial=(len(tr[1]) >= 2 or tr[0] != "ok"),
+                   regime=regime or ("reject" if abs(skipback) >= geff else "half" if 2 * abs(skipback) <= geff else "large-skipback"),
+                   sample={"nbits": nbits, "splits": splits, "gulp": gulp, "start": start, "nsamps": nsamps, "skipback": skipback,
+                           "blocks": [(b[0], b[1]) for b in tr[1]], "kind": tr[0]} if (gulp, start, nsamps, skipback, tuple(tag)) == (3, 1, 5, 1, ()) else None)
+            check_case(R, x, nch, N, nbits, splits, gulp, start, nsamps, skipback, tr)
+            if not tie:
+                return
+            pick = (gulp + start + nsamps + skipback) % 3 == 0
+            if nbits == 8:
+                corr.append((nch, x, splits, gulp, start, nsamps, skipback, tr))
+            elif nbits in (1, 2, 4) and pick:
+                corrp.append((nch, nbits, x, splits, gulp, start, nsamps, skipback, tr))
+            elif nbits in (16, 32) and pick:
+                # byte level: a sample is nchans*itemsize bytes (C01_plan_sound with nch := samp_stride)
+                isz = nbits // 8
+                dt = filutil.dtype_for(nbits)
+                xb = np.frombuffer(np.ascontiguousarray(x).astype(dt).tobytes(), dtype=np.uint8).reshape(x.shape[0], nch * isz)
+                trb = (tr[0], [(b[0], b[1], np.frombuffer(np.ascontiguousarray(b[2]).tobytes(), dtype=np.uint8)) for b in tr[1]], tr[2])
+                corr.append((nch * isz, xb, splits, gulp, start, nsamps, skipback, trb))
+
+        def skipbacks(gulp, nsamps):
+            """every 0..effective gulp, then: just above the effective gulp (above the nominal gulp too unless gulp > nsamps), far above
+            the nominal gulp, and negative values (read_plan takes the magnitude) on both sides of the rejection boundary"""
+            geff = min(gulp, nsamps)
+            out = list(range(0, geff + 1))
+            for sb in (geff + 1, 2 * gulp + 1, -geff, -(geff - 1)):
+                if sb not in out:
+                    out.append(sb)
+            return out
+
+        def to_end(fil, x, nch, N, nbits, splits, gulps):
+            """nsamps left out: the plan runs to the end of the set (header.nsamples - start), for every start including start = N
+            (nothing left: effective gulp 0, rejected)"""
+            for start in range(0, N + 1):
+                for gulp in gulps:
+                    for skipback in (0, 1, -2):
+                        explore(fil, x, nch, N, nbits, splits, gulp, start, N - start, skipback, tag=("to-end",), nsamps_arg=_DEFAULT, tie=(start < N),
+                                label=None if (gulp, skipback) == (2, 1) else "c01 ")
+            # every argument left out: gulp 16384, start 0, to the end, no skipback -> one block with the whole set
+            R.tick({'nbits': nbits, 'splits': splits, 'call': 'read_plan() with every argument left out'})
+            tr = iterate(fil, _DEFAULT, _DEFAULT, _DEFAULT, _DEFAULT)
+            R.case((nbits, tuple(splits), N, nch, "all-defaults"), nontrivial=False, regime="defaults")
+            check_case(R, x, nch, N, nbits, splits, 16384, 0, N, 0, tr)
+
         for nbits, nf in configs:
             nch = NCH[nbits]
             N = Nmax if nbits == 8 else min(Nmax, 6)
-            x = nprng.integers(0, 1 << min(nbits, 8), (N, nch))
+            x = draw(nprng, nbits, (N, nch))
             splits = sorted(nprng.choice(np.arange(1, N), size=nf - 1, replace=False).tolist()) if nf > 1 else []
             paths = filutil.write_fil_set(os.path.join(d, f"p{nbits}_{nf}"), x, nbits, splits, vary_header=(nf == 3))
             fil = FilReader(paths)
             for start in range(0, N):
                 for nsamps in range(1, N - start + 1):
                     for gulp in range(1, nsamps + 2):
+                        for skipback in skipbacks(gulp, nsamps):
+                            # the added values are tied to the Coq model one time in three (rejections are C01_plan_reject for every value)
+                            explore(fil, x, nch, N, nbits, splits, gulp, start, nsamps, skipback,
+                                    tie=(0 <= skipback <= min(gulp, nsamps) or (gulp + start + nsamps + skipback) % 3 == 0),
+                                    label=None if 0 <= skipback <= min(gulp, nsamps) else "c01 ")
+                    # nominal gulp well above the range: nsamps < |skipback| < gulp must be rejected like |skipback| >= gulp
+                    for skipback in (nsamps + 1, -(nsamps + 2), nsamps + 3):
+                        explore(fil, x, nch, N, nbits, splits, nsamps + 3, start, nsamps, skipback, label="c01 ")
+            to_end(fil, x, nch, N, nbits, splits, (2, N + 1))
+        # every way of laying N samples over two and three files, members without any sample included (split points may coincide and
+        # may be 0 or N), every header of a different byte length
+        Ns = 4 if R.tier == "quick" else 5
+        xs = draw(nprng, 8, (Ns, 3))
+        lay = [[a] for a in range(0, Ns + 1)] + [[a, b] for a in range(0, Ns + 1) for b in range(a, Ns + 1)]
+        for li, splits in enumerate(lay):
+            paths = filutil.write_fil_set(os.path.join(d, f"l{li}"), xs, 8, splits, vary_header=True)
+            fil = FilReader(paths)
+            for start in range(0, Ns):
+                for nsamps in range(1, Ns - start + 1):
+                    for gulp in range(1, nsamps + 2):
                         for skipback in range(0, min(gulp, nsamps) + 1):
-                            R.tick({'nbits': nbits, 'splits': splits, 'gulp': gulp, 'start': start, 'nsamps': nsamps, 'skipback': skipback}); tr = iterate(fil, gulp, start, nsamps, skipback)
-                            R.case((nbits, tuple(splits), gulp, start, nsamps, skipback), nontrivial=(len(tr[1]) >= 2 or tr[0] != "ok"),
-                                   regime=("reject" if skipback >= min(gulp, nsamps) else "half" if 2 * skipback <= min(gulp, nsamps) else "large-skipback"),
-                                   sample={"nbits": nbits, "splits": splits, "gulp": gulp, "start": start, "nsamps": nsamps, "skipback": skipback,
-                                           "blocks": [(b[0], b[1]) for b in tr[1]], "kind": tr[0]} if (gulp, start, nsamps, skipback) == (3, 1, 5, 1) else None)
-                            check_case(R, x, nch, N, nbits, splits, gulp, start, nsamps, skipback, tr)
-                            if nbits == 8:
-                                corr.append((nch, x, splits, gulp, start, nsamps, skipback, tr))
-                            elif nbits in (1, 2, 4) and (gulp + start + nsamps + skipback) % 3 == 0:
-                                corrp.append((nch, nbits, x, splits, gulp, start, nsamps, skipback, tr))
-                            elif nbits in (16, 32) and (gulp + start + nsamps + skipback) % 3 == 0:
-                                # byte level: a sample is nchans*itemsize bytes (C01_plan_sound with nch := samp_stride)
-                                isz = nbits // 8
-                                dt = filutil.dtype_for(nbits)
-                                xb = np.frombuffer(np.ascontiguousarray(x).astype(dt).tobytes(), dtype=np.uint8).reshape(x.shape[0], nch * isz)
-                                trb = (tr[0], [(b[0], b[1], np.frombuffer(np.ascontiguousarray(b[2]).tobytes(), dtype=np.uint8)) for b in tr[1]], tr[2])
-                                corr.append((nch * isz, xb, splits, gulp, start, nsamps, skipback, trb))
+                            explore(fil, xs, 3, Ns, 8, splits, gulp, start, nsamps, skipback, tag=("layout",), tie=((li + gulp + start + nsamps + skipback) % 3 == 0), label="c01 ")
+            explore(fil, xs, 3, Ns, 8, splits, 2, 0, Ns, 1, tag=("to-end",), nsamps_arg=_DEFAULT)
         # random larger cases
         for _ in range(60 if R.tier == "quick" else 600):
-            nbits = rng.choice([1, 2, 4, 8, 8, 16, 32]); nch = NCH[nbits] * rng.choice([1, 2])
+            nbits = rng.choice([1, 2, 4, 8, 8, 16, 32])
+            # channel counts: the smallest with nchans*nbits a multiple of 8, times 1, 2, an odd factor or 8 (8-bit: 1, 3, 5 channels too)
+            nch = (8 // math.gcd(8, nbits)) * rng.choice([1, 2, 2, 3, 5, 8])
             N = rng.randrange(8, 60); nf = rng.randrange(1, 4)
-            x = nprng.integers(0, 1 << min(nbits, 8), (N, nch))
+            x = draw(nprng, nbits, (N, nch))
+            # split points may coincide or lie at 0 / N one time in four: members without any sample
             splits = sorted(rng.sample(range(1, N), nf - 1)) if nf > 1 else []
+            if nf > 1 and rng.random() < 0.25:
+                splits = sorted(rng.choice([0, N, rng.randrange(0, N + 1)]) if rng.random() < 0.5 else s_ for s_ in splits)
             paths = filutil.write_fil_set(os.path.join(d, "r"), x, nbits, splits, vary_header=True)
             fil = FilReader(paths)
             for _ in range(8):
                 start = rng.randrange(0, N); nsamps = rng.randrange(1, N - start + 1)
                 gulp = rng.choice([1, 2, 3, rng.randrange(1, nsamps + 3), nsamps, nsamps + 5])
                 geff = min(gulp, nsamps)
-                skipback = rng.choice([0, 0, geff // 2, rng.randrange(0, geff + 1), max(0, geff - 1), -(geff // 3)])
-                R.tick({'nbits': nbits, 'splits': splits, 'gulp': gulp, 'start': start, 'nsamps': nsamps, 'skipback': skipback}); tr = iterate(fil, gulp, start, nsamps, skipback)
-                R.case((nbits, tuple(splits), N, gulp, start, nsamps, skipback), nontrivial=(len(tr[1]) >= 2 or tr[0] != "ok"), regime="random")
-                check_case(R, x, nch, N, nbits, splits, gulp, start, nsamps, skipback, tr)
-                if nbits == 8 and N <= 24:
-                    corr.append((nch, x, splits, gulp, start, nsamps, skipback, tr))
+                skipback = rng.choice([0, 0, geff // 2, rng.randrange(0, geff + 1), max(0, geff - 1), -(geff // 3),
+                                       -rng.randrange(0, geff + 1), geff + 1 + rng.randrange(0, 5), -(geff + rng.randrange(0, 5)), gulp + rng.randrange(0, 3)])
+                to_end_ = rng.random() < 0.15
+                if to_end_:
+                    nsamps = N - start; geff = min(gulp, nsamps)
+                explore(fil, x, nch, N, nbits, splits, gulp, start, nsamps, skipback, regime="random", tag=("to-end",) if to_end_ else (),
+                        nsamps_arg=_DEFAULT if to_end_ else None, tie=(nbits == 8 and N <= 24))
         # ---- correspondence: Model/Plan.v run_plan vs the implementation's trace (8-bit files) ----
         per = 400
         enc_kind = {"ok": 0, "err-before": 1, "err-after": 2}
@@ -222,7 +337,13 @@ def scale(R: vlib.Run):
     ]
     try:
         for nbits, nch, N, splits, plans in table:
-            x = nprng.integers(0, 1 << min(nbits, 8), (N, nch), dtype=np.uint8)
+            # values over the whole range of the depth (16-bit: both bytes of the word; 32-bit: fractions, both signs)
+            if nbits == 16:
+                x = nprng.integers(0, 1 << 16, (N, nch), dtype=np.uint16)
+            elif nbits == 32:
+                x = (nprng.standard_normal((N, nch), dtype=np.float32) * np.float32(1000.0)).astype(np.float32)
+            else:
+                x = nprng.integers(0, 1 << nbits, (N, nch), dtype=np.uint8)
             paths = filutil.write_fil_set(os.path.join(d, f"s{nbits}"), x, nbits, splits)
             fil = FilReader(paths)
             for gulp, start, nsamps, skipback in plans:
@@ -238,7 +359,7 @@ def scale(R: vlib.Run):
                         first = pos - (skipback if k else 0)
                         want = x[first:first + n_r]
                         got = np.asarray(data).reshape(n_r, nch)
-                        if want.shape != got.shape or not np.array_equal(got.astype(want.dtype) if nbits < 32 else got, want):
+                        if want.shape != got.shape or not same(got, want, nbits):
                             bad = f"block {k} (samples {first}..{first + n_r}) differs from the file contents"; break
                         pos = first + n_r
                         k += 1
